@@ -1,6 +1,6 @@
 import OrixProofs.Lemmas.CodecAngVendorsMain
-import OrixModel.Codec.Ctf
-import OrixModel.Codec.Bruker
+import OrixProofs.Lemmas.CodecCtf
+import OrixProofs.Lemmas.CodecBruker
 import OrixModel.Codec.Emsoft
 set_option linter.unusedVariables false
 /-
@@ -63,6 +63,20 @@ theorem row_roundtrip (names props : List Str) (p : Pt)
 /-! ### .ctf -/
 section Ctf
 open Orix.Codec.Ctf
+
+/-- **.ctf, Oxford AZtec / Bruker Esprit, EMsoft, MTEX**: for every map well-formed for the variant (`CtfWF`:
+property names of the variant — EMsoft's `DP, OSM, IQ` —, Euler angles in degrees, phases numbered 1 … n as the
+`Phases` block lists them with Laue class / space group accepted by `Phase`, phase 0 never used for an indexed
+point) the reader returns exactly `m`: right column ↦ right field, degrees, phase 0 ↦ not indexed. -/
+theorem ctf_decode_encode (fmt : CtfFmt) (hfmt : fmt ≠ .astar) (x : CtfExtras) (m : PMap) (ni : Bool)
+    (hwf : CtfWF fmt x m ni) : readCtf ctfTables (encodeCtf fmt x m) = some m :=
+  ctf_main fmt hfmt x m ni hwf
+
+/-- **.ctf, NanoMegas ASTAR**: the file's coordinate columns are rounded; the reader replaces them by the
+header grid (`XStep`, `YStep`, `XCells`, `YCells`) and returns the map with exactly those coordinates. -/
+theorem ctf_astar_decode_encode (x : CtfExtras) (m : PMap) (ni : Bool) (hwf : AstarWF x m ni) :
+    readCtf ctfTables (encodeCtf .astar x m) = some m :=
+  ctf_astar_main x m ni hwf
 
 /-- T-gen obligations for the .ctf reader: column order, EMsoft renaming, degrees, not-indexed id, unit. -/
 theorem ctf_tables :
@@ -127,6 +141,24 @@ theorem bruker_tables :
     brukerTables.sortedAttrs = [S "x", S "phase_id", S "rotations"] := by
   decide +kernel
 
+/-
+Full statement for Bruker files:  decode brukerTables (encode x m) = some m  for every map `m` on a full
+rectangular grid and every acquisition order `x.perm` that keeps each row's points together (for the code as
+it is; for every permutation once y is re-ordered too).  UNPROVED in this generality (the bookkeeping of
+min/max of `IY`, `IX` and of the thirteen property columns is not done); proved: the combinatorial core
+`bruker_roi_sorted_back` for all arrays and all permutations, the table obligations, and kernel-checked
+instances including the counter-example.  The correspondence check exercises the full statement.
+-/
+
+/-- **Region-of-interest ordering is a permutation that is sorted back**: if the file stores at position `k`
+the map point `perm[k]` (`perm` any permutation of `0 … n-1`, so that `IY*ncols+IX` at position `k` is
+`perm[k]`), then `stored[argsort(IY*ncols+IX)]` is the array in map order — for *every* array `a` (coordinates,
+phase ids, Euler angles, each property). -/
+theorem bruker_roi_sorted_back {α} (a stored : List α) (perm : List Nat)
+    (hp : perm.Perm (List.range a.length)) (hst : perm.mapM (a[·]?) = some stored) :
+    Bruker.take stored (argsort (perm.map Int.ofNat)) = some a :=
+  take_argsort a stored perm hp hst
+
 /-- a 2×2 map (row-major) as a Bruker file stores it: XSAMPLE mirrored, YSAMPLE = y -/
 def bMap : PMap :=
   { propNames := Bruker.fmtProps.map (·.1),
@@ -156,6 +188,13 @@ end Bruker
 /-! ### EMsoft h5ebsd -/
 section Emsoft
 open Orix.Codec.Emsoft
+
+/-
+Full statement for EMsoft files:  decode emsoftTables x.refined (encode x m) = some m  for every map with `k`
+rotations / values per point.  UNPROVED (chunking of `(n, k)` datasets and the transposition of property
+columns are not reasoned about); proved: table obligations and the header regular expressions on the
+documented strings; the correspondence check exercises the full statement (dictionary and refined variants).
+-/
 
 /-- T-gen obligations for the EMsoft reader: property list, dictionary angles in degrees and 1-based
 indices, refined angles in radians. -/
